@@ -68,6 +68,10 @@ func genCase(t *rapid.T) Case {
 		}
 		avail = a2
 	}
+	if c.Rsize == 32 && !c.OnlyDestRegs && rapid.IntRange(0, 2).Draw(t, "floatfocus") == 0 {
+		// concentrate on the float opcodes now and then (they are a small share of the 32-bit table)
+		avail = []string{"addf", "multf", "divf", "jgt0f", "rset", "cpy", "j", "nop", "r2o", "addp", "multp", "divp"}
+	}
 	// opcode subset: a random non-empty subset, usually with something that produces non-zero data
 	nops := rapid.IntRange(1, 8).Draw(t, "nops")
 	set := map[string]bool{}
@@ -471,7 +475,7 @@ func prop(c Case) pbt.Outcome {
 	// simulator completes it at once (D5). Compared only up to the first of the pair; counted.
 	for k := 1; k < n; k++ {
 		a, b := strings.Fields(c.Prog[spc[k-1]]), strings.Fields(c.Prog[spc[k]])
-		if (a[0] == "r2owa" || a[0] == "r2o") && b[0] == "r2owa" && a[2] == b[2] {
+		if (a[0] == "r2owa" || a[0] == "r2o" || a[0] == "r2owaa") && b[0] == "r2owa" && a[2] == b[2] {
 			if !c.Strict {
 				labels["truncated-at:D12-r2owa-back-to-back"] = true
 				n = k
@@ -509,7 +513,7 @@ func prop(c Case) pbt.Outcome {
 			sig := "hdl-stalled"
 			if len(htr) >= 1 && len(htr) < len(spc) {
 				a, b := strings.Fields(c.Prog[spc[len(htr)-1]]), strings.Fields(c.Prog[spc[len(htr)]])
-				if (a[0] == "r2owa" || a[0] == "r2o") && b[0] == "r2owa" && a[2] == b[2] {
+				if (a[0] == "r2owa" || a[0] == "r2o" || a[0] == "r2owaa") && b[0] == "r2owa" && a[2] == b[2] {
 					sig = "D12:hdl-r2owa-back-to-back-never-completes"
 				}
 			}
